@@ -171,7 +171,12 @@ PAIRS = [
     ("cubegen_h2o_5points.cube", "cube", False), ("water.xyz", "cube", False), ("ch5plus.pdb", "poscar", False),
     ("h2o_sto3g.wfn", "mkl", False), ("water_sto3g_hf_g03.fchk", "fchk", False), ("water.xyz", "nosuchformat", False),
     ("water_hfs_321g.fchk", "wfx", False), ("li_sp_virtual_orca.molden", "molden", False),
+    # format names are passed verbatim: spellings the API rejects must be rejected by the CLI, too
+    ("water.xyz", "XYZ", False), ("water.xyz", "Pdb", False), ("water.xyz", " sdf", False), ("water.xyz", "sdf ", False),
+    ("water_trajectory.xyz", "PDB", True), ("water.xyz", "in:XYZ", False), ("water.xyz", "in: xyz", False),
+    ("water.xyz", "in:xyz", False), ("water_trajectory.xyz", "in:Xyz", True),
 ]
+VERBATIM = {"XYZ", "Pdb", " sdf", "sdf ", "PDB"}
 EXT = {"molekel": "mkl"}
 
 
@@ -231,6 +236,8 @@ def check_case(case, work):
         name = "out.dat2"
     infmt = None
     outfmt = target if explicit else None
+    if target.startswith("in:"):
+        infmt, outfmt, name = target[3:], None, "out.xyz"
     if target == "mkl":
         outfmt = "molekel" if explicit else None
     a_err, a_bytes = _api_run(infile, os.path.join(d, "api_" + name) if False else os.path.join(d, name), many, infmt, outfmt, allow, pre)
@@ -265,6 +272,8 @@ def _cases(ctx):
         if not ctx.thorough and not ctx.escalated:
             combos = rng.sample(combos, 3)
         for e, a, p in combos:
+            if target in VERBATIM:
+                e = True
             cases.append((fname, target, many, e, a, p))
     return cases
 
